@@ -20,7 +20,9 @@
     (`crash_partial_segment_leaks`, D13; witness replayed on the real code); partial
     `crash_segment_all_or_nothing_partial`: a segment with a missing / empty /
     header-less component, or whose FIRST-read component (hybrid) is truncated, is
-    ignored as a whole.
+    ignored as a whole; FULL `crash_load_requires_complete`: only a segment all of whose
+    component files are complete (gzip trailer of the last one included, repair ae56580)
+    is ever loaded and cached.
   * `crash_durable_kept` (partial): a segment complete before the crashed step began is
     found by the first search after recovery, unless the crashed step is the compaction's
     swap-and-delete (D14); `crash_durable_kept_every_search`: and by every search of every
@@ -185,6 +187,26 @@ theorem crash_segment_all_or_nothing_partial (tpl : Tpl) (fs : FS) (id : Nat) (T
         · cases hfiles
       obtain ⟨rest, rfl⟩ := this
       simp [readAll, readComp, hc]
+
+/-- FULL (since the repair ae56580, getIndex drains the MultiReader): a segment is loaded ONLY IF
+    every component file the templates need is present and complete — header, data and trailer.
+    A missing, empty or truncated component anywhere, the gzip trailer of the last file included,
+    makes the load fail. (What a failing load may already have written into the shared templates
+    is D13's subject, `crash_partial_segment_leaks`.) -/
+theorem crash_load_requires_complete (tpl : Tpl) (fs : FS) (id : Nat) (T : Shared)
+    (h : (loadSeg tpl fs id T).1 = true) : segComplete tpl fs id = true :=
+  loadSeg_ok_complete tpl fs id T h
+
+/-- … and conversely a complete segment (with payloads of the right kind, as every segment the
+    store writes has) loads: `loadSeg_of_holds` in CometProofs/Storage/DurableLoad.lean. -/
+example :
+    let s := run (Store.init cfgTiny) [.add docA, .flush]
+    segComplete s.cfg.tpl s.fs 1 = true ∧ (loadSeg s.cfg.tpl s.fs 1 Shared.empty).1 = true ∧
+    -- the last component (metadata) short of its trailer only: rejected, but only after the
+    -- whole content has been published into the templates
+    (let fs' := recut [.seg .metadata 1] (fun _ => .trailer) s.fs
+     (loadSeg s.cfg.tpl fs' 1 Shared.empty).1 = false ∧
+     (loadSeg s.cfg.tpl fs' 1 Shared.empty).2 = (loadSeg s.cfg.tpl s.fs 1 Shared.empty).2) := by decide
 
 /-! ## what was durable before the crash is still found -/
 
